@@ -161,7 +161,11 @@ class Node(Server):
         except SystemExit:
             err = StartupRefused(list(self.secnode.errors), buf.getvalue())
             err.logged = [r for r in self.loghandler.records if r[1] in ('ERROR', 'CRITICAL')]
+            drop_logger(self.log)
             raise err from None
+        except BaseException:
+            drop_logger(self.log)       # nobody gets the object to close(): the logging manager would keep the tree for ever
+            raise
         finally:
             sys.stderr = stderr
 
